@@ -128,6 +128,15 @@ FOCUS_TEMPLATES = [
      'partial-derived-after-a-call'),
     ("let $p := function($a, $b, $c) { $a * 100 + $b * 10 + $c }(?, ?, ?) return ($p(1, 2, 3), $p(count(%s), ?, ?)(8, 9), $p(?, 5, ?)(4, 6), $p(3, 2, 1))",
      lambda q: _ints([123, len(q) * 100 + 89, 456, 321]), 'partial-derived-after-a-call'),
+    # the arity of an inline function item is checked when a partial application of it is created
+    ("let $f := function($a, $b) { $a * 10 + $b } return for $k in %s return $f($k, ?)(1)",
+     lambda q: _ints([x * 10 + 1 for x in q]), 'partial-arity-checked'),
+    ("let $f := function($a, $b) { $a * 10 + $b } return for $k in %s return $f(?, 2, $k)(1)",
+     lambda q: ['error', 'XPTY0004'], 'partial-arity-checked'),
+    ("let $f := function($a, $b) { $a * 10 + $b } return for $k in %s return $f(?)($k)",
+     lambda q: ['error', 'XPTY0004'], 'partial-arity-checked'),
+    ("let $f := function($a, $b) { $a * 10 + $b } return for $k in %s return $f($k, ?)(1, 2)",
+     lambda q: ['error', 'XPTY0004'], 'partial-arity-checked'),
     # for-each-pair with two lazy operands that depend on the focus (predicates with position()/last(), paths)
     ("for-each-pair(%s[position() ge 1][. ge last() - last()], %s[. ge 0][position() le last()], function($a, $b) { $a * 10 + $b })",
      lambda q: _ints([x * 11 for x in q]), 'for-each-pair-lazy-operands'),
@@ -312,6 +321,10 @@ def run_case(case, world):
                     outs.append(_engine_items(s_.select(None, item=1)))
                 else:
                     outs.append(_engine_items(elementpath.select(None, text, parser=tparser, item=1)))
+                if expected[:1] == ['error']:
+                    violate('MODEL_MISMATCH', 'focusref', '%s gave %r, expected the error %s' % (text, outs[0], expected[1]), set(),
+                            [tfeat, 'missing-error'])
+                    outs = []
                 for got in outs:
                     if got != expected:
                         violate('MODEL_MISMATCH', 'focusref', '%s gave %r, expected %r' % (text, got, expected), set(),
@@ -319,6 +332,9 @@ def run_case(case, world):
                         break
             except Exception as e:
                 world.event(('error', idx, canon_exc(e)))
+                if expected[:1] == ['error'] and is_ep_error(e) and canon_exc(e)[-1] == expected[1]:
+                    shapes.append('focusref')
+                    continue
                 # the template has a value: no value at all is a mismatch whatever is raised
                 violate('MODEL_MISMATCH', 'focusref', '%s raised %r, expected %r' % (text, canon_exc(e), expected), set(),
                         [tfeat, 'engine-error'] + ([] if is_ep_error(e) else ['non-ep-exception']))
